@@ -144,6 +144,8 @@ def op_coq(op):
         return f"MakeTidsConsecutive {a[0]} {a[1]}"
     if n == "Kill":
         return f"Kill {a[0]}"
+    if n == "RemoveAll":
+        return f"RemoveAll {a[0]}"
     raise ValueError(n)
 
 
@@ -310,6 +312,7 @@ class World:
         qtn = self.qtn
         name, a = op[0], op[1:]
         T, N = self.T, self.N
+        self.extra_problems = []
         L = lambda xs: [self.lstr(i) for i in xs]  # noqa: E731
         G = lambda xs: [tag(g) for g in xs]  # noqa: E731
         new_nets = []
@@ -340,9 +343,17 @@ class World:
                     tn |= T[k]
                 else:
                     tn &= T[k]
+            elif name == "RemoveAll":
+                N[a[0]].remove_all_tensors()
             elif name == "AddNet":
                 n, s, virtual, cc, sp = a
                 tn = N[n]
+                # combining never makes two previously distinct bonds coincide: a label that names an inner
+                # bond in BOTH operands must keep exactly its holders in the receiving network
+                shared_bonds = {}
+                if cc and self.dom:
+                    shared_bonds = {ix: len(tn.ind_map[ix]) for ix in tn._inner_inds
+                                    if ix in N[s]._inner_inds and ix in tn.ind_map}
                 if sp == 0 or not cc:
                     tn.add_tensor_network(N[s], virtual=virtual, check_collisions=cc)
                 elif sp == 1:
@@ -351,6 +362,12 @@ class World:
                     tn |= N[s]
                 else:
                     tn &= N[s]
+                for ix, cnt in shared_bonds.items():
+                    if len(tn.ind_map.get(ix, ())) != cnt:
+                        self.extra_problems.append((
+                            "combine_bonds", n,
+                            f"bond {ix} of network {n} had {cnt} holders, after adding network {s} (whose own inner "
+                            f"bond has the same name) it has {len(tn.ind_map.get(ix, ()))}: two distinct bonds now coincide"))
             elif name == "Pop":
                 N[a[0]].pop_tensor(a[1])
             elif name == "PopTags":
@@ -645,6 +662,7 @@ class Gen:
             (self.g_tdroptags, 2), (self.g_nreindex, 6), (self.g_nretag, 4), (self.g_naddtag, 3), (self.g_ndroptags, 2),
             (self.g_copy, 6), (self.g_deepcopy, 3), (self.g_select, 5), (self.g_selectwithout, 2),
             (self.g_partition, 3), (self.g_partition_tensors, 2), (self.g_consecutive, 1), (self.g_kill, 5),
+            (self.g_removeall, 2),
         ]
         fns = [f for f, w in table for _ in range(w)]
         for _ in range(30):
@@ -703,6 +721,10 @@ class Gen:
         if len(live) < 2:
             return None
         n, s = rng.sample(live, 2)
+        for _ in range(4):  # prefer pairs whose inner bonds share a name (mangling must keep them apart)
+            if set(W.N[n]._inner_inds) & set(W.N[s]._inner_inds):
+                break
+            n, s = rng.sample(live, 2)
         if len(W.N[n].tensor_map) + len(W.N[s].tensor_map) > 7:
             return None
         virtual = rng.random() < 0.5
@@ -919,6 +941,13 @@ class Gen:
         rng = self.rng
         return ("MakeTidsConsecutive", rng.choice(self.W.live()), rng.choice([0, 0, 3]))
 
+    def g_removeall(self):
+        rng = self.rng
+        cands = [j for j in self.W.live() if self.W.N[j].tensor_map]
+        if not cands:
+            return None
+        return ("RemoveAll", rng.choice(cands))
+
     def g_kill(self):
         rng = self.rng
         live = self.W.live()
@@ -1109,6 +1138,7 @@ def run_history(rng, mode, nops, fixed_ops=None, selection=True):
             if name == "Kill" and ok:
                 flags["killed"] = True
             o, problems = W.observe(ok)
+            problems += W.extra_problems
             for j in W.live():
                 try:
                     W.N[j].check()
@@ -1330,10 +1360,11 @@ def run(ctx):
         "oracle on the implementation (test stream), plus C02_combine_renaming_partial for the renaming itself",
     ]
     ctx.check_props(["C02/Model.vo", "C02/Corr.vo", "C02/Lists.vo", "C02/Inv.vo", "C02/Inv2.vo", "C02/Inv3.vo", "C02/Inv4.vo",
-                     "C02/Struct.vo", "C02/Steps.vo", "C02/Step.vo", "C02/Final.vo", "C02/Combine.vo", "C02/OSet.vo", "C02/OCorr.vo", "C02/Props.v"])
+                     "C02/Struct.vo", "C02/Inv5.vo", "C02/Steps.vo", "C02/Step.vo", "C02/Final.vo", "C02/Combine.vo", "C02/OSet.vo", "C02/OCorr.vo", "C02/Props.v"])
     ctx.stage(correspondence)
     ctx.stage(numeric_stream)
     ctx.stage(combine_stream)
+    ctx.stage(compress1d_stream)
     ctx.extra.pop("_reported_keys", None)
 
 
@@ -1356,6 +1387,8 @@ def replay(ctx, path):
         ctx.stage(numeric_stream)
     elif rep.get("stream") == "combine":
         ctx.stage(combine_stream)
+    elif rep.get("stream") == "compress1d":
+        ctx.stage(compress1d_stream)
     elif rep.get("stream") == "oset":
         ctx.stage(oset_stream)
     else:
@@ -1588,9 +1621,15 @@ def combine_stream(ctx):
         a_outer, b_outer = set(a.outer_inds()), set(b.outer_inds())
         b_before = {tid: tuple(t.inds) for tid, t in b.tensor_map.items()}
         a_before = {tid: tuple(t.inds) for tid, t in a.tensor_map.items()}
-        how = rng.randrange(3)
+        how = rng.randrange(4)
         try:
-            if how == 0:
+            if how == 3:
+                c = a.copy(virtual=virtual)
+                if virtual:
+                    c |= b
+                else:
+                    c &= b
+            elif how == 0:
                 c = (a | b) if virtual else (a & b)
             elif how == 1:
                 c = a.copy(virtual=virtual)
@@ -1861,3 +1900,50 @@ def oset_stream(ctx):
         info[cid] = {"ops": ops}
         cases.append((cid, "(ocheck [" + "; ".join(oop_coq(o) for o in ops) + "]%nat [" + "; ".join(exp) + "]%Z)"))
     return cases, info
+
+
+def compress1d_stream(ctx):
+    """in-place 1D compression rebuilds the network through remove_all_tensors(): the tensors it dropped (kept alive
+    by a view / a user reference) must stop notifying it; afterwards labels / tags are changed through them"""
+    import quimb.tensor as qtn
+
+    rng = ctx.rng
+    methods = ["dm", "zipup", "zipup-first", "fit", "src", "direct"]
+    for it in range(ctx.n(12, 60)):
+        L = rng.randint(3, 5)
+        method = methods[it % len(methods)]
+        kind = rng.randrange(2)
+        seed = rng.randrange(10**6)
+        try:
+            tn = qtn.MPS_rand_state(L, 4, seed=seed) if kind == 0 else qtn.MPO_rand_herm(L, 3, seed=seed)
+            old = list(tn.tensor_map.values())
+            how = rng.randrange(3)
+            view = tn.copy(virtual=True) if how == 0 else (tn.select(tn.site_tag(0), virtual=True) if how == 1 else None)
+            qtn.tensor_network_1d_compress(tn, max_bond=2, method=method, inplace=True)
+        except Exception as e:
+            ctx.bump("compress1d_raised:" + method + ":" + type(e).__name__)
+            continue
+        ctx.bump("compress1d:" + method)
+        ctx.count(("compress1d", it, method, kind, how), True)
+        stages = [("after the in-place compression", None)]
+        t_old = old[rng.randrange(len(old))] if how != 1 else old[0]
+        stages.append(("after renaming a label of a tensor the network dropped", lambda: t_old.reindex_({t_old.inds[-1]: "zz_renamed"})))
+        stages.append(("after retagging a tensor the network dropped", lambda: t_old.retag_({next(iter(t_old.tags)): "ZZ"})))
+        for label, thunk in stages:
+            if thunk is not None:
+                thunk()
+            bad = [("compressed network", p) for p in net_problems(tn)]
+            held = {id(t) for t in tn.tensor_map.values()}
+            for t in old:
+                if id(t) not in held and any(ref() is tn for ref, _ in t._owners.values()):
+                    bad.append(("compressed network", "owners"))
+                    break
+            if view is not None:
+                bad += [("view", p) for p in net_problems(view, view=True)]
+            if bad:
+                where, what = bad[0]
+                ctx.violation(f"compress1d_inplace:{what.split(':')[0]}",
+                              f"tensor_network_1d_compress(method={method!r}, inplace=True) on a {'MPS' if kind == 0 else 'MPO'} "
+                              f"with its old tensors kept alive: {label} the {where}'s {what} disagrees with a fresh scan",
+                              {"stream": "compress1d", "L": L, "method": method, "kind": kind, "view": how, "seed": seed})
+                break
